@@ -62,6 +62,15 @@ CHECKS = {
         "changes are compared with the model (drift).",
         "The catalogue is finite and listed by the harness; hidden cells are read through private attributes for the drift check only; results compared by value.",
     ),
+    "C06": (
+        "DESIGN.md 5/C06",
+        "exhaustive observation of the 7 block codes through their public API + TLC enumeration of the same domains evaluating the clauses (BlockCodes.tla)",
+        "The implementation is called on every one of the 2^k messages, every one of the 2^n words (incl. all 2^20 Golay words), every "
+        "codeword x single error and, for Hamming(16,11,4), every codeword x double error; TLC enumerates the same 1.75 million items "
+        "and evaluates systematic form, linearity in the learned rows, checker = code membership, minimum distance, repair of single "
+        "errors and reporting of double errors; the learned rows are also compared with the shortened-cyclic (polynomial) definition.",
+        "Exhaustive on both sides; membership is relative to the library's own encoder (a different but self-consistent code of the same distance would pass; the polynomial comparison reports that as drift).",
+    ),
 }
 
 NOT_YET = {}
